@@ -269,6 +269,15 @@ func (C18) Generate(c *Ctx, r *Rand, index int) *Scenario {
 		if !loadHeavy && rp.Chance(1, 2) {
 			theme = Pick(rp, ExprThemeNames)
 		}
+		if sub == 3 {
+			// the race stage walks through the operator families one after the other: two evaluations
+			// only race if both touch the same machinery
+			loadHeavy = index%(len(ExprThemeNames)+2) == len(ExprThemeNames)
+			theme = ""
+			if k := index % (len(ExprThemeNames) + 2); k < len(ExprThemeNames) {
+				theme = ExprThemeNames[k]
+			}
+		}
 		for k := 0; k < n; k++ {
 			j := genThemedLibJob(rp.Fork("job"+strconv.Itoa(k)), k, true, theme)
 			if loadHeavy && len(j.Files) == 0 {
@@ -478,12 +487,12 @@ func (C18) Judge(c *Ctx, sc *Scenario) []Violation {
 		lib := sc.Lib
 		raced := false
 		var res *LibResult
-		attempts := 1 // every process already repeats the pool in 4 rounds x 3 goroutines x 8 iterations
+		attempts := 1 // every process already repeats the pool in 3 rounds x 2 goroutines x 3 iterations, walking in step
 		if c.Quiet {
 			attempts = 3 // minimisation and replay try harder before they call a scenario race-free
 		}
 		for attempt := 0; attempt < attempts && !raced; attempt++ {
-			res = c.W.RunLib(c.W.LibRace, "race", sc, 0, RunOpts{Slot: c.Slot}, "GORACE=halt_on_error=0 exitcode=66")
+			res = c.W.RunLib(c.W.LibRace, "race", sc, 0, RunOpts{Slot: c.Slot, GOMAXPROCS: 4}, "GORACE=halt_on_error=0 exitcode=66")
 			if !c.Quiet {
 				c.Stats.Add("race_detector_processes", 1)
 			}
